@@ -23,6 +23,7 @@ import (
 	"os"
 	"path/filepath"
 	"regexp"
+	"runtime"
 	"strconv"
 	"strings"
 	"sync"
@@ -179,6 +180,22 @@ func (w *world) sink(point string, args ...any) {
 	}
 }
 
+// wedge marks the server as hung and, the first time, writes the stacks of all goroutines next to the results (and to
+// /var/tmp for the developer): a hang is only useful as a finding if one can see where it hangs.
+func wedge(flag *atomic.Bool, where string) {
+	if flag.Swap(true) {
+		return
+	}
+	buf := make([]byte, 8<<20)
+	buf = buf[:runtime.Stack(buf, true)]
+	hdr := []byte("hang detected at: " + where + "  " + time.Now().Format(time.RFC3339Nano) + "\n\n")
+	for _, d := range []string{os.Getenv("VERIF_SCRATCH_DIR"), "/var/tmp"} {
+		if d != "" {
+			_ = os.WriteFile(filepath.Join(d, fmt.Sprintf("c12-hang-goroutines-%d.txt", os.Getpid())), append(hdr, buf...), 0o644)
+		}
+	}
+}
+
 func (w *world) waitDone() (doneEv, bool) {
 	select {
 	case ev := <-w.done:
@@ -331,12 +348,12 @@ func (e *exec) setOption(key string, val any) (int, bool, int, bool) {
 			return 0, false, 0, false
 		}
 	case <-time.After(waitTimeout):
-		e.w.wedged.Store(true)
+		wedge(&e.w.wedged, "site 1")
 		return 0, false, 0, false
 	}
 	ev, ok := e.w.waitDone()
 	if !ok {
-		e.w.wedged.Store(true)
+		wedge(&e.w.wedged, "site 2")
 		return 0, false, 0, false
 	}
 	last := ev.n
@@ -351,7 +368,7 @@ func (e *exec) setOption(key string, val any) (int, bool, int, bool) {
 			}
 		}
 		if !ok {
-			e.w.wedged.Store(true)
+			wedge(&e.w.wedged, "site 3")
 			return 0, false, 0, false
 		}
 		if ev2.hasExpired {
@@ -680,7 +697,7 @@ func (e *exec) overlap(cfgA, cfgB []keyTmpl) string {
 	fail := func(what string) string {
 		armed.Store(false)
 		close(release)
-		w.wedged.Store(true)
+		wedge(&w.wedged, "site 4")
 		return "HANG " + what
 	}
 	w.cfgKeysSet = true
@@ -706,7 +723,7 @@ func (e *exec) overlap(cfgA, cfgB []keyTmpl) string {
 	close(release)
 	for done < 2 {
 		if _, ok := w.waitDone(); !ok {
-			w.wedged.Store(true)
+			wedge(&w.wedged, "site 5")
 			return "HANG overlapping key imports did not complete"
 		}
 		done++
@@ -753,7 +770,7 @@ func (e *exec) serve(r *http.Request) (*httptest.ResponseRecorder, bool) {
 	case <-done:
 		return rec, false
 	case <-time.After(waitTimeout):
-		e.w.wedged.Store(true)
+		wedge(&e.w.wedged, "site 6")
 		return rec, true
 	}
 }
@@ -1126,7 +1143,7 @@ func (e *exec) dbRequest(method, key string) (int, []byte) {
 		}
 		return 999, nil
 	case <-time.After(waitTimeout):
-		e.w.wedged.Store(true)
+		wedge(&e.w.wedged, "site 7")
 		return -1, nil
 	}
 }
